@@ -74,6 +74,8 @@ inductive Op where
   | leave (k : Nat)
   | stop
   | start
+  /-- `Application.invalidate()` + the `_redraw()` it schedules -/
+  | inval
 deriving Repr, DecidableEq
 
 /-- the future stored in `app._running_in_terminal_f` is missing or done -/
@@ -148,6 +150,9 @@ def step (s : St) : Op → St
   | .start =>
     -- the previous `run_async` has returned: it awaited the last future of the chain
     if ¬ s.appOn ∧ allDone s.chain then { s with appOn := true, log := s.log ++ [.draw] } else s
+  | .inval =>
+    -- `_redraw`: "Only draw when no sub application was started": `_is_running and not _running_in_terminal`
+    if s.appOn ∧ ¬ s.rit then { s with log := s.log ++ [.draw] } else s
 
 def runOps (s : St) : List Op → St
   | [] => s
@@ -197,6 +202,7 @@ def stepLine (s : St) : List String → Option (St × String)
     | none => none
   | ["cstop"] => let s' := step s .stop; some (s', reply s s')
   | ["cstart"] => let s' := step s .start; some (s', reply s s')
+  | ["cinval"] => let s' := step s .inval; some (s', reply s s')
   | _ => none
 
 end Ptk.C20Chain
